@@ -204,6 +204,16 @@ def run(tier, seed):
         node("ns.Fail", [{"name": "detail", "type": ["null", "string"]}], ["null", "ns.Fail"], kind="error"),
         node("ListP4", [{"name": "v1", "type": ["null", "int"]}, {"name": "v2", "type": ["null", "int"]}, {"name": "v3", "type": ["int", "null", "string"]}]),
     ]
+    # decimals of every size: precisions beyond the 28 digits of Python's default decimal context, scales 0 / middle / = precision,
+    # bytes and fixed, bare / field / union / array
+    for prec, sc in ((1, 0), (9, 9), (18, 4), (28, 10), (29, 0), (30, 15), (38, 10), (38, 38), (60, 7)):
+        dec_b = {"type": "bytes", "logicalType": "decimal", "precision": prec, "scale": sc}
+        size = 1
+        while 10 ** prec > 2 ** (8 * size - 1):
+            size += 1
+        dec_f = {"type": "fixed", "name": "Dec%d_%d" % (prec, sc), "size": size, "logicalType": "decimal", "precision": prec, "scale": sc}
+        directed += [dec_b, dec_f, {"type": "record", "name": "HasDec%d_%d" % (prec, sc), "fields": [{"name": "d", "type": dec_b}, {"name": "u", "type": ["null", dec_f]},
+                                                                                                  {"name": "xs", "type": {"type": "array", "items": dec_b}}]}]
     for i in range(scale(tier, 500) + len(directed)):
         g = gen.Gen(seed * 20000003 + i, logical=(i % 3 == 0), bytes_defaults=False, max_depth=2 if i % 2 else 3)
         try:
